@@ -270,6 +270,7 @@ def run(ctx):
     import pennylane as qp
 
     from pv.checks import c26 as C26
+    from pv.checks import c27
     from pv.gen import c26_gen as gen
     from pv.ref import c26_ref as R
     from pv.ref import sv
@@ -280,7 +281,7 @@ def run(ctx):
         pure.install(ctx)
     except Exception as e:  # noqa: BLE001
         ctx.note("m_pure", f"not installed: {type(e).__name__}: {e}")
-    N = ctx.n(110, 8000)
+    N = ctx.n(110, 4000)
     for i in range(N):
         if not ctx.more():
             break
@@ -309,7 +310,9 @@ def run(ctx):
         for name in DEVICES:
             if name == "default.clifford" and profile != "clifford":
                 continue
-            if name == "reference.qubit" and (len(spec["wires"]) > 4 or len(spec["ops"]) > 8):
+            if name == "reference.qubit" and (len(spec["wires"]) > 4 or len(spec["ops"]) > 8 or c27.heavy_for_reference(spec)):
+                continue
+            if name.startswith("default.tensor") and len(spec["dev_wires"]) > 6:
                 continue
             if name.startswith("default.tensor") and shots:
                 continue
